@@ -15,6 +15,7 @@ EXPLANATION = (
 EXPLANATION_ADDED = 'R2 also requires that no test of the frame id can bypass the opcode dispatch (any flow id is delivered); (R4) the datagram queue is sized by datagram_buffer_size.'
 EXPLANATION_ADDED2 = ' R1 also requires that every Ok(()) of the sender is dominated by the queue send.'
 EXPLANATION = EXPLANATION + " Added while testing against seeded changes: " + EXPLANATION_ADDED + EXPLANATION_ADDED2
+EXPLANATION = EXPLANATION + ' Round 10: (R5) datagrams reach the application in queue order: one-at-a-time receive, or a strictly first-in first-out intermediate store; the Options setter stores its argument (R4).'
 ASSUMPTIONS = ["single FIFO (S1) + bounded tokio queue give order and at-most-once"]
 NOT_DECIDED = "loss only when the buffer is full (needs counting at run time)"
 DG = "penguin_mux::Datagram"
@@ -173,6 +174,7 @@ def check(facts, rep, tier, cfg):
     rep.rule("C11.R5", "datagrams reach the application in queue order: they are taken off the bounded datagram queue one at a time, or through "
                        "an intermediate store that is strictly first-in first-out (no store at all on the pinned tree)")
     check_datagram_fifo(facts, rep, crate)
+    check_option_setters(facts, rep, crate, "C11.R4", ['datagram_buffer_size'])
 
 
 _RECV_ONE = {"recv", "poll_recv", "try_recv", "blocking_recv"}
